@@ -43,7 +43,7 @@ func vRecoverPanic(f func()) {
 	f()
 }
 
-const vC09Programs = 17
+const vC09Programs = 18
 
 func vC09Program(prog int, warm bool) {
 	obsCore, logs := observer.New(zapcore.DebugLevel)
@@ -167,6 +167,16 @@ func vC09Program(prog int, warm bool) {
 			_ = logs.FilterMessage("first").Len()
 			_ = logs.FilterLevelExact(zapcore.InfoLevel).FilterMessageSnippet("zzz").All()
 		})
+	case 17: // custom (out-of-range) levels through the colour level encoders, JSON and console
+		sink := &vSafeSink{}
+		cfg := zapcore.EncoderConfig{MessageKey: "m", LevelKey: "l", EncodeLevel: zapcore.CapitalColorLevelEncoder}
+		l := New(zapcore.NewTee(
+			zapcore.NewCore(zapcore.NewJSONEncoder(cfg), zapcore.Lock(zapcore.AddSync(sink)), zapcore.Level(-8)),
+			zapcore.NewCore(zapcore.NewConsoleEncoder(zapcore.EncoderConfig{MessageKey: "m", LevelKey: "l", EncodeLevel: zapcore.LowercaseColorLevelEncoder}), zapcore.Lock(zapcore.AddSync(sink)), zapcore.Level(-8))))
+		if warm {
+			l.Log(zapcore.Level(-2), "warm")
+		}
+		vPar(func() { l.Log(zapcore.Level(-2), "a"); l.Log(zapcore.Level(-4), "c") }, func() { l.Log(zapcore.Level(-3), "b"); l.Log(zapcore.Level(9), "d") })
 	}
 	vrt.Cover("done")
 }
@@ -175,7 +185,7 @@ type errC09 string
 
 func (e errC09) Error() string { return string(e) }
 
-//verif: prop=C09 bounds="17 two-goroutine programs (fresh/warm WithLazy loggers, logging while deriving/naming, AtomicLevel changes, ReplaceGlobals vs L()/S(), sampler same key, tee+hooks+increase-level, observer reads, sugared With/Sync, JSON IO core over Lock, BufferedWriteSyncer write/sync/stop, recovered Panic next to Info, custom fatal hook next to Check/Write, lazy core below a tee, nested fresh WithLazy, stack+errors, observer Filter* while logging and draining), one to three calls per goroutine, on a fresh and on a warmed-up logger; every interleaving of synchronisation operations with at most 2 preemptions; happens-before race monitor, deadlock and panic detection"
+//verif: prop=C09 bounds="18 two-goroutine programs (fresh/warm WithLazy loggers, logging while deriving/naming, AtomicLevel changes, ReplaceGlobals vs L()/S(), sampler same key, tee+hooks+increase-level, observer reads, sugared With/Sync, JSON IO core over Lock, BufferedWriteSyncer write/sync/stop, recovered Panic next to Info, custom fatal hook next to Check/Write, lazy core below a tee, nested fresh WithLazy, stack+errors, observer Filter* while logging and draining, custom levels through the colour level encoders), one to three calls per goroutine, on a fresh and on a warmed-up logger; every interleaving of synchronisation operations with at most 2 preemptions; happens-before race monitor, deadlock and panic detection"
 func VC09Pairs() {
 	vC09Program(vrt.Choice("program", vC09Programs), vrt.Choice("warm", 2) == 1)
 }
